@@ -290,7 +290,7 @@ def _addch_inv(L):
                                                                    h.f(h0.lget(ch, k), "_depth") == VInt(d + 1)))))
 
 
-c.loop("loop#1", invariant=_addch_inv,
+c.loop("iter:children", invariant=_addch_inv,
        modifies=lambda L: [("field*", "_depth"), ("list", L.at_entry().f(L.local("self"), "_children"))])
 
 
